@@ -39,7 +39,7 @@ def tok_json(t):
             t.start_pos, t.end_pos, t.line, t.column, t.end_line, t.end_column]
 
 
-def tree_json(t, positions=False, meta=False):
+def tree_json(t, positions=False, meta=False, container=False):
     """Tree -> nested lists. Tokens: ['T', type, value(, positions)], None: ['N'], Tree: ['R', data, [children](, meta)]"""
     from lark import Tree, Token
     if t is None:
@@ -50,13 +50,16 @@ def tree_json(t, positions=False, meta=False):
             return ['T', str(t.type), v, t.start_pos, t.end_pos, t.line, t.column, t.end_line, t.end_column]
         return ['T', str(t.type), v]
     if isinstance(t, Tree):
-        r = ['R', str(t.data), [tree_json(c, positions, meta) for c in t.children]]
+        r = ['R', str(t.data), [tree_json(c, positions, meta, container) for c in t.children]]
         if meta:
             m = t.meta
             if getattr(m, 'empty', True):
                 r.append([])
             else:
                 r.append([m.start_pos, m.end_pos, m.line, m.column, m.end_line, m.end_column])
+                if container:
+                    r.append([getattr(m, a, None) for a in ('container_start_pos', 'container_end_pos', 'container_line', 'container_column',
+                                                            'container_end_line', 'container_end_column')])
         return r
     if isinstance(t, (str, bytes)):
         return ['S', t if isinstance(t, str) else t.decode('latin1')]
